@@ -173,6 +173,12 @@ func fetchPkgEnums(pa *packages.Package) enumsMap {
 		}
 		// per the spec, only basic types may be constant
 
+		// a constant declared here with a type of another package
+		// does not make that type an enum, nor is it one of its members
+		if named.Obj().Pkg() != pa.Types {
+			continue
+		}
+
 		comment := fetchConstComment(pa, decl)
 		if strings.Contains(comment, IgnoreDeclComment) { // this value does not implies an enum
 			continue
